@@ -42,7 +42,10 @@ const rule = "case = rapid-drawn (key pool, 120-400 primary client steps: puts o
 	"attached before a drawn step of the first third: stalled_reader (StreamWAL opened, Recv never called), tcp_stall (real replica behind a TCP proxy " +
 	"that stops reading and forwarding at a drawn step, sockets left open), tcp_reset (proxy resets every socket), no_ack (reads, never acknowledges), " +
 	"slow_apply (real Replica whose applier sleeps 5-100 ms per entry), tcp_stall_quiet (blackholed right after registration and before the first write; " +
-	"clause 2 judged before the workload), none); executed in a child process over loopback TCP; " +
+	"clause 2 judged before the workload), " +
+	"nack_sender (raw replica that reads its stream and keeps calling NegativeAcknowledge with its session id every 0.2-5 ms from 1-3 goroutines for " +
+	"sequence 1 / its last sequence / a future sequence, or follows the protocol but drops every 2nd-7th message and NACKs the gap; with or without " +
+	"acknowledgements; clause 2 observed only), none); executed in a child process over loopback TCP; " +
 	"oracle = (1) every Put/Get/Commit on the primary returns within 10 s without error, (2) GetNodeInfo no longer lists the faulty replica " +
 	"10 x heartbeat timeout after the workload (classes stalled_reader, tcp_stall, tcp_reset, no_ack, tcp_stall_quiet), (3) every healthy replica equals the primary " +
 	"(gets + full scan) within 60 s + 3 s per 100 steps and still 2 s later. " +
@@ -71,16 +74,16 @@ func TestChild(t *testing.T) {
 
 // Doc is the replay document.
 type Doc struct {
-	Property  string  `json:"property"`
-	Signature string  `json:"signature,omitempty"`
-	Case      Case    `json:"case"`
+	Property  string `json:"property"`
+	Signature string `json:"signature,omitempty"`
+	Case      Case   `json:"case"`
 	// Cases (optional, replay files only): further cases that belong to the same
 	// document; TestReplay executes all of them side by side and fails with the
 	// signature of the first one (in order: Case, Cases...) that fails.
-	Cases []Case `json:"cases,omitempty"`
-	Message   string  `json:"message,omitempty"`
-	Result    *Result `json:"child_result,omitempty"`
-	Note      string  `json:"note,omitempty"`
+	Cases   []Case  `json:"cases,omitempty"`
+	Message string  `json:"message,omitempty"`
+	Result  *Result `json:"child_result,omitempty"`
+	Note    string  `json:"note,omitempty"`
 }
 
 func infra(msg string) {
@@ -184,6 +187,13 @@ func record(c *Case, r *Result) {
 			ev.R().Count("faulty_session_dropped:"+c.Fault.Class, 1)
 		} else if r.Verdict == "ok" {
 			ev.R().Count("faulty_session_still_listed(not judged):"+c.Fault.Class, 1)
+		}
+	}
+	if c.Fault.Class == "nack_sender" && r.FaultyStats != nil {
+		for _, k := range []string{"nacks", "acks", "dropped_msgs"} {
+			if v, ok := r.FaultyStats[k].(float64); ok {
+				ev.R().Count("nack_sender_"+k, int(v))
+			}
 		}
 	}
 	if c.Healthy > 0 && r.Verdict == "ok" {
